@@ -274,6 +274,10 @@ def between_comparer(comparer_params_eval, student_eval, utils):
     if not np.isreal(student_eval):
         raise InputTypeError("Input must be real.")
 
+    # A real value may still carry a complex type (e.g. i^2 + 6), which cannot be ordered
+    if isinstance(student_eval, complex):
+        student_eval = student_eval.real
+
     return start <= student_eval <= stop
 
 def congruence_comparer(comparer_params_eval, student_eval, utils):
